@@ -387,6 +387,22 @@ impl ObjState for [Link] {
         validate_slice_real_shift(&mut errors, &self[1..], "Link", 0);
         early_err!(errors, "Links");
 
+        // Every referenced link index must lie inside the network (they are used as indices below)
+        let n_links = self.len();
+        if self.iter().skip(1).any(|link| {
+            link.idx_flip.idx() >= n_links
+                || link.idx_next.idx() >= n_links
+                || link.idx_next_alt.idx() >= n_links
+                || link.idx_prev.idx() >= n_links
+                || link.idx_prev_alt.idx() >= n_links
+        }) {
+            errors.push(anyhow!(
+                "Link indices must reference links within the network of {} links!",
+                n_links
+            ));
+            return Err(errors);
+        }
+
         for (idx, link) in self.iter().enumerate().skip(1) {
             // Validate flip and curr
             if link.idx_curr.idx() != idx {
